@@ -48,8 +48,46 @@ RoundTrip(e) ==
                         cpudiff |-> UNION {CpuDiff(d.cpu, e.loads[i].state, SnaCpuFields) : i \in DOMAIN e.loads}]>>)
             /\ bad' = bad + 1
 
+\* C14: a file written from description d (by the drivers' own writers) loaded into an emulator
+FileLoad(e) ==
+    \E d \in {[m |-> e.m_file, cpu |-> e.desc.cpu, border |-> e.desc.border, latch |-> e.desc.latch, seed |-> e.seed, ramw |-> e.ramw]} :
+    LET same == e.m_file = e.m_emu
+        issues ==
+          IF ~same
+          \* "a file for a model the machine cannot represent is rejected with an error rather than applied"
+          THEN (IF e.outcome = "err" THEN {} ELSE {"othermodel:" \o e.outcome})
+          ELSE IF e.outcome # "ok" THEN {"load:" \o e.outcome}
+          ELSE LET st == e.state
+                   \* where PC of a halted CPU points is a convention of the emulator: judged by behaviour below
+                   cpuBad == CpuDiff(d.cpu, st, (IF e.is_sna THEN SnaCpuFields ELSE AllCpuFields) \ (IF e.opts.halted THEN {"pc"} ELSE {}))
+               IN {"cpu" : k \in cpuBad}
+                  \cup (IF st.border # d.border THEN {"border"} ELSE {})
+                  \cup (IF e.m_file = 128 /\ (st.latch # d.latch \/ st.locked # (Bit(d.latch, 5) = 1)) THEN {"paging"} ELSE {})
+                  \cup (IF e.ram_diff # <<>> THEN {"ram"} ELSE {})
+                  \* "halted and EI-pending status"; nothing inherited from the receiving machine
+                  \cup (IF (st.halted = 1) # e.opts.halted THEN {"halted"} ELSE {})
+                  \cup (IF (st.ei = 1) # e.opts.eilast THEN {"eilast"} ELSE {})
+                  \cup (IF st.pfx # 0 THEN {"inherited"} ELSE {})
+                  \cup (IF e.is_sna THEN {}
+                        ELSE \* a halted machine stays halted (IFF1 = 0 in these files) and never reaches the INC A behind the HALTs
+                             (IF e.opts.halted /\ (e.after3.a # Hi(d.cpu.af) \/ ~e.after3.halted) THEN {"halted:runs-on"} ELSE {})
+                             \cup (IF e.opts.ay # <<>> /\ e.ay_readback # e.opts.ay[1].regs THEN {"ay:registers"} ELSE {})
+                             \cup (IF e.opts.audible /\ e.after3.energy = 0 THEN {"ay:silent"} ELSE {})
+                             \cup (IF e.opts.mouse # -1 /\ e.mouse_present # (e.opts.mouse = 2) THEN {"mouse"} ELSE {}))
+    IN IF issues = {} THEN bad' = bad
+       ELSE /\ PrintT(<<"MISMATCH", l, "fileload",
+                       [enc |-> e.enc, target |-> e.target, m_file |-> e.m_file, m_emu |-> e.m_emu, issues |-> issues, detail |-> e.detail,
+                        cpudiff |-> IF same /\ e.outcome = "ok" THEN CpuDiff(d.cpu, e.state, IF e.is_sna THEN SnaCpuFields ELSE AllCpuFields) ELSE {}]>>)
+            /\ bad' = bad + 1
+
 Step(e) ==
     CASE e.ev = "roundtrip" -> RoundTrip(e)
+      [] e.ev = "fileload" -> FileLoad(e)
+      \* SCR: a 6912-byte file becomes the bytes at 0x4000..0x5AFF; any other size is not a screen file
+      [] e.ev = "scrload" ->
+            IF (e.len = 6912 /\ e.outcome = "ok" /\ e.diff = <<>>) \/ (e.len # 6912 /\ e.outcome = "err") THEN bad' = bad
+            ELSE PrintT(<<"MISMATCH", l, "scrload", [m |-> e.m, len |-> e.len, outcome |-> e.outcome, diff |-> e.diff, detail |-> e.detail]>>)
+                 /\ bad' = bad + 1
       [] OTHER -> bad' = bad
 
 TraceNext == l <= Len(Rec) /\ Step(Rec[l]) /\ l' = l + 1
